@@ -3,14 +3,16 @@ from __future__ import annotations
 
 import random
 
-from ..engine import gate, monitors, overlap, reuse, suite
+from ..engine import cleanup, gate, monitors, overlap, reuse, suite
 from ..runner import Divergence, Driver, Env, Outcome, diff_streams
 
 THEOREMS = ["C04_init_live", "C04_terminal_last", "C04_crash_unreachable", "C04_terminal_last_unconditional",
             "C04_outcome_once", "C04_consumer_terminates_of_endedWell", "C04_consumer_terminates", "C04_statement_holds",
             "C04_refuted_witness_unrepaired", "C04_refuted_unrepaired", "C04_unrepaired_differs_only_on_raise",
             "C04_overlap_source_shape", "C04_overlap_exactly_once", "C04_overlap_holds", "C04_overlap_refuted_unrepaired",
-            "C04_overlap_guarded_unrepaired", "C04_overlap_guard_position_matters"]
+            "C04_overlap_guarded_unrepaired", "C04_overlap_guard_position_matters",
+            "C04_cleanup_source_shape", "C04_cleanup_any_grace", "C04_cleanup_holds", "C04_cleanup_returns_with_last",
+            "C04_cleanup_refuted_wait_only", "C04_cleanup_wait_only_partial"]
 LEAN_TARGETS = ["WfProps.C04"]
 EXPLANATION = (
     "Runner LTS: for every configuration, retry-policy oracle (also one that raises), initial state satisfying the "
@@ -231,6 +233,51 @@ def _gate_runs(env: Env, out: Outcome, n: int) -> None:
         out.divergences.append(d)
 
 
+def _cleanup_runs(env: Env, out: Outcome, n: int) -> None:
+    """(K) the real `_ControlLoopRunner.cleanup_tasks` on harness-made worker tasks that unwind from their cancellation as
+    generated programs say (segments: wait / reaction to a further cancellation / write), against `wfdriver workercleanup`
+    (await shape and grace period from the current source); (S) when the method returns no worker is running and none
+    writes later"""
+    rng = random.Random(env.rng.randrange(1 << 30))
+    ops: list[str] = []
+    if env.replay is not None and isinstance(env.replay.get("payload", {}).get("case"), dict) and "cleanup_op" in env.replay["payload"]["case"]:
+        ops.append(env.replay["payload"]["case"]["cleanup_op"])
+    ops += [op for item in suite.load_corpus("C04/cleanup") for op in item["ops"]]
+    ops += [cleanup.gen_op(rng) for _ in range(n)]
+    ops += list(cleanup.MALFORMED)
+    exp: list[str] = []
+    for op in ops:
+        line, facts = cleanup.run_real(op)
+        exp.append(line)
+        out.evaluations += 1
+        out.count("cleanup:ops")
+        if facts:
+            out.count("cleanup:workers", len(facts["done"]))
+            out.count("cleanup:returned:" + ("at_once" if facts["returned"] == 0 else "within_half_a_second" if facts["returned"] < 4
+                                             else "at_half_a_second" if facts["returned"] == 4 else "later_waiting_for_a_deaf_worker"))
+            out.count("cleanup:second_cancel_delivered", sum(facts["more"].values()))
+            if len(facts["done"]) >= 1 and facts["returned"] > 0:
+                out.nontrivial(("cleanup", op))
+        else:
+            out.count("cleanup:malformed")
+        out.violations += cleanup.monitor(op, facts)
+    try:
+        mo = Driver("workercleanup").run(ops)
+    except Exception as ex:
+        out.divergences.append(Divergence("workercleanup", 0, "<driver>", repr(ex), ""))
+        return
+    # a tie (a segment ending in the very instant the grace period expires) is not modelled: whatever the code did stands
+    ties = [i for i, m in enumerate(mo) if m == "tie"]
+    out.count("cleanup:tie_skipped", len(ties))
+    exp = ["tie" if i in ties else e for i, e in enumerate(exp)]
+    out.traces_validated += len(ops)
+    out.disagreements_checked += len(ops)
+    d = diff_streams("workercleanup", ops, mo, exp)
+    if d is not None:
+        d.context = {"cleanup_op": ops[d.index] if d.index < len(ops) else None}
+        out.divergences.append(d)
+
+
 def run(env: Env) -> Outcome:
     out = Outcome()
     out.rule = ("direct (state,tick) pairs + live scripted workflows (steps that raise, return non-events, race with StopEvent, "
@@ -243,4 +290,5 @@ def run(env: Env) -> Outcome:
     _overlap_runs(env, out, env.budget(220, 3000))
     _gate_runs(env, out, env.budget(250, 4000))
     _teardown_runs(env, out, env.budget(120, 2400))
+    _cleanup_runs(env, out, env.budget(150, 3000))
     return out
